@@ -302,6 +302,10 @@ func prodTemplates() []prodTemplate {
 		{"resobj", []kit.Reg{{ResObj: true, Outs: []kit.Out{{T: "P4"}, {T: "P5", Key: "k2"}}}}},
 		{"resobj-group", []kit.Reg{{ResObj: true, Outs: []kit.Out{{T: "P4"}, {T: "D1", Group: "h"}}}}},
 		{"resobj-err", []kit.Reg{{ResObj: true, Err: true, Outs: []kit.Out{{T: "P4"}, {T: "P5", Key: "k2"}}}}},
+		// one type under three identities of one result object: unkeyed, member of a group, keyed
+		{"resobj-sametype", []kit.Reg{{ResObj: true, Outs: []kit.Out{{T: "P4"}, {T: "P4", Group: "h"}, {T: "P4", Key: "k2"}}}}},
+		// the group field first, and two members of one group with the same type
+		{"resobj-sametype-groupfirst", []kit.Reg{{ResObj: true, Outs: []kit.Out{{T: "D1", Group: "h"}, {T: "D1"}, {T: "D1", Group: "h"}}}}},
 		{"alias", []kit.Reg{{Outs: []kit.Out{{T: "D2"}}, As: []string{"IA"}}}},
 		{"alias2", []kit.Reg{{Outs: []kit.Out{{T: "D2"}}, As: []string{"IA", "IB"}}}},
 		{"alias-named", []kit.Reg{{Outs: []kit.Out{{T: "D2"}}, As: []string{"IA"}, Name: "k1"}}},
